@@ -81,6 +81,10 @@ class Resolver:
         # downcast + field of a local holding a call result etc.
         if all(e["k"] in ("field", "downcast") for e in proj):
             base = self.local(l, depth + 1)
+            if base[0] == "place" and base[1]:
+                # a component of a value that was copied out of memory: the same component of that memory
+                ext = tuple(("f", p.get("name") if p.get("name") is not None else str(p["i"])) if p["k"] == "field" else ("as", p.get("name")) for p in proj)
+                return ("place", frozenset((root, tuple(pr) + ext) for (root, pr) in base[1]))
             if base[0] not in ("local", "arg"):
                 e = base
                 for p in proj:
@@ -89,7 +93,22 @@ class Resolver:
                         if e[0] == "agg" and isinstance(e[3], tuple) and p["i"] < len(e[3]) and (e[1] is None or not str(e[1]).endswith(("result::Result", "option::Option"))):
                             e = e[3][p["i"]]
                             continue
-                        e = ("field", e, p.get("name") if p.get("name") is not None else str(p["i"]))
+                        nm = p.get("name") if p.get("name") is not None else str(p["i"])
+                        # (Some(x) as Some).0 is x, (Ok(x) as Ok).0 is x, ...
+                        if e[0] == "field" and isinstance(e[2], str) and e[2].startswith("as ") and e[1][0] == "agg" and e[1][2] == e[2][3:] and isinstance(e[1][3], tuple) and p["i"] < len(e[1][3]):
+                            e = e[1][3][p["i"]]
+                            continue
+                        # ((Try::branch(Ok(x))) as Continue).0 is x; ((Try::branch(Err(e))) as Break).0 is Err(e)
+                        if nm == "0" and e[0] == "field" and e[2] in ("as Continue", "as Break") and e[1][0] == "call" and (e[1][1] or "").endswith("ops::Try::branch") and e[1][3]:
+                            inner = e[1][3][0]
+                            if inner[0] == "agg" and str(inner[1]).endswith("result::Result") and inner[3]:
+                                if e[2] == "as Continue" and inner[2] == "Ok":
+                                    e = inner[3][0]
+                                    continue
+                                if e[2] == "as Break" and inner[2] == "Err":
+                                    e = inner
+                                    continue
+                        e = ("field", e, nm)
                     else:
                         e = ("field", e, "as " + str(p.get("name")))
                 return e
